@@ -209,6 +209,31 @@ def shard(P, vtag, all_metrics, n_noise, seed):
             P.sample({"version": vtag, "all_metrics": all_metrics, "answers": ans})
 
 
+def shard_mixed(P, idx, n, seed):
+    """Many sessions of different versions / modes one after another in ONE process (a
+    session must not depend on the sessions before it)."""
+    import random
+    rng = random.Random("C16-mixed-%s-%s" % (seed, idx))
+    combos = [(vt, am) for vt in ("2", "3.0", "3.1", "4") for am in (False, True)]
+    for vt, am in combos:  # order witnesses first (each is itself a judged session)
+        DLG.question_order(vt, am)
+    for j in range(n):
+        # all-metrics session directly followed by a mandatory-only session and vice versa
+        vt = rng.choice(("2", "3.0", "3.1", "4"))
+        for am in rng.choice(((True, False), (False, True), (True, False, True), (False, False, True, False))):
+            order, _ = DLG.question_order(vt, am)
+            if order is None or set(order) != DLG.metric_set(vt, am):
+                P.stratum("mixed:no-usable-order-witness")
+                order = T.ORDER[DLG.VER_OF[vt]] if am else T.MANDATORY[DLG.VER_OF[vt]]
+            ver = DLG.VER_OF[vt]
+            ans = [rng.choice(T.VALUES[ver][q]) for q in order]
+            P.stratum("mixed-sessions")
+            P.dist(("mixed", idx, j, vt, am, tuple(ans)))
+            check_dialogue(P, vt, am, ans)
+            if rng.random() < 0.3:
+                vt = rng.choice(("2", "3.0", "3.1", "4"))
+
+
 def probe_answers(vtag):
     ver = DLG.VER_OF[vtag]
     vals = []
@@ -225,6 +250,7 @@ def run(R):
     R.assumptions = ["question order is not fixed by the property: taken from the returned vector / a probing run",
                      "answers with surrounding whitespace may be rejected or accepted as their stripped form"]
     R.pmap("shard", [(vt, am, R.pick(250, 12000), R.seed) for vt in ("2", "3.0", "3.1", "4") for am in (False, True)])
+    R.pmap("shard_mixed", [(i, R.pick(60, 1500), R.seed) for i in range(8)])
     for vt in ("2", "3.0", "3.1", "4"):
         ver = DLG.VER_OF[vt]
         for am, mode in ((False, "mandatory"), (True, "all")):
